@@ -11,7 +11,8 @@ EARLY = "mov rax, 0x2a\nnop\n"
 BIG = "mov rax, 0x1122334455667788\n" * 1400 + "ret\n"      # 14 kB: the internal buffer grows twice
 HUGE = "mov rax, 0x1122334455667788\n" * 20000 + "ret\n"    # 200 kB: more than three 64 KiB blocks
 # library calls whose refusal must surface as the documented failure value of the API call in progress
-MUST_FAIL = {"malloc", "mmap", "mremap", "open", "fstat", "fopen", "fwrite"}
+MUST_FAIL = {"malloc", "mmap", "mremap", "open", "fstat", "fopen", "fwrite", "read", "write"}
+SOFT = {"read", "write"}      # with mode /1 these transfer half of what was asked for: legal, must be absorbed or reported
 
 
 def scenarios(tmp):
@@ -24,7 +25,12 @@ def scenarios(tmp):
     bigsrc = os.path.join(tmp, "big.asm")
     with open(bigsrc, "w") as f:
         f.write(BIG)
+    nops = os.path.join(tmp, "nops.asm")
+    with open(nops, "w") as f:
+        f.write("nop\n" * 8)      # any prefix of half the size is itself a program: a short read that is taken for the whole file shows as a wrong result, not as a parse error
     S = {
+        "S13-file-every-half-is-a-program": ["i", "A" + hexec.esc(EARLY), "f" + hexec.esc(nops), "o2", "G", "d"],
+        "S14-file-counting-every-half-is-a-program": ["c256:p:cc", "A" + hexec.esc(EARLY), "n4:" + hexec.esc(nops), "o2", "G", "d"],
         "S1-caller-buffer": ["c256:p:cc", "A" + hexec.esc(EARLY), "A" + hexec.esc("add rax, rbx\n"), "o0", "G", "d"],
         "S2-internal-growth": ["i", "A" + hexec.esc(EARLY), "A" + hexec.esc(BIG), "o2", "G", "d"],
         # the same with a retry after a failed growth: the instance must not believe it owns more memory than it does
@@ -92,6 +98,9 @@ def judge(name, ops, ref_obs, ref_calls, plan_idx, obs, filedata, ref_file):
     # step index in obs: obs[0] is 'Z:', obs[i] belongs to ops[i-1]
     fstep = {si for si, _ in faulted}
     demanded = {si for si, c in faulted if c in MUST_FAIL}
+    soft = str(plan_idx).endswith("/1") and bool(faulted) and all(c in SOFT for _, c in faulted)
+    if soft:
+        demanded = set()
     dead = False
     for i, op in enumerate(ops, start=1):
         o = obs[i] if i < len(obs) else ""
@@ -114,6 +123,9 @@ def judge(name, ops, ref_obs, ref_calls, plan_idx, obs, filedata, ref_file):
             if i in demanded:
                 if a.ret == 0:
                     disc.add("success-despite-refusal")
+            elif soft and i in fstep:
+                if a.ret == 0 and (a.off, a.hex) != (ra.off, ra.hex):
+                    disc.add("wrong-result-after-short-transfer")
             elif i not in fstep and not any(s < i for s in fstep if ops[s - 1][0] in "AfnN"):
                 if (a.ret, a.off, a.hex) != (ra.ret, ra.off, ra.hex):
                     disc.add("result-differs-without-fault")
@@ -164,7 +176,7 @@ def run(tier, seed):
         S, out = scenarios(tmp)
         rep.rule = ("13 API scenarios (200 kB of code written to a file; empty file through both file entry points; caller buffer; internal buffer growing twice, with retry, under chunk fitting, from the file entry point, "
                     "in a counting call; file assembly; file counting; binary output once and twice); "
-                    "the library-side libc calls (malloc mmap mremap munmap open fstat close fopen fwrite fclose) of each are "
+                    "the library-side libc calls (malloc mmap mremap munmap open fstat close fopen fwrite fclose read write) of each are "
                     "recorded through -Wl,--wrap interposers, then the scenario is re-run once for EVERY call index refused "
                     "(quick) and for EVERY ordered pair of refused indices (thorough), plus short-write variants of fwrite; each "
                     "run in a forked child; oracle: no abnormal termination, documented failure value of the API call in progress, "
@@ -183,6 +195,8 @@ def run(tier, seed):
             for k, (_, c, _) in enumerate(calls):
                 if c == "fwrite":
                     extra += ["%d/1" % k, "%d/2" % k]
+                if c in SOFT:
+                    extra += ["%d/1" % k]
             todo = [",".join(map(str, p)) for p in plans] + extra
             for plan in todo:
                 if rep.expired():
@@ -208,7 +222,7 @@ def run(tier, seed):
             rep.sample({"scenario": name, "ops": [o[:40] for o in ops], "library_calls": [c for _, c, _ in calls]})
     finally:
         shutil.rmtree(tmp, ignore_errors=True)
-    rep.assumptions = ["a refusal is: malloc NULL, mmap/mremap MAP_FAILED, open/fstat/close/munmap -1, fopen NULL, fwrite short, "
+    rep.assumptions = ["a refusal is: malloc NULL, mmap/mremap MAP_FAILED, open/fstat/close/munmap -1, fopen NULL, fwrite short, read/write -1 or (separately) a short transfer that must be absorbed or reported, "
                        "fclose EOF (data written)", "for refused munmap/close/fclose only survival is demanded"]
     return rep.finish(replay)
 
